@@ -4,6 +4,9 @@ use crate::{Plan, Task, SMALL_CHUNK_BUILD};
 use ant_networking::verif::{self as hooks, NetworkSwarmCmd};
 use ant_networking::{NetworkBuilder, SwarmDriver};
 use ant_protocol::storage::{try_serialize_record, Chunk, RecordKind};
+use autonomi::client::data::DataMapChunk;
+use autonomi::client::files::archive::{Metadata, PrivateArchive};
+use autonomi::client::files::archive_public::PublicArchive;
 use autonomi::Client;
 use bytes::Bytes;
 use libp2p::kad::{self, PeerRecord, ProgressStep, QueryId, QueryResult, QueryStats, Record, RecordKey};
@@ -29,6 +32,20 @@ struct World<'a> {
     sel_pos: usize,
     replies: u64,
     fetch_order: Vec<Vec<u8>>,
+    /// the read under way ends in file system work on tokio's blocking pool (download-to-file wrappers): when nothing
+    /// is pending the driver waits for that thread instead of declaring the read stuck
+    file_mode: bool,
+    dest_root: Option<std::path::PathBuf>,
+}
+
+static RUN_COUNTER: std::sync::atomic::AtomicU64 = std::sync::atomic::AtomicU64::new(0);
+
+impl Drop for World<'_> {
+    fn drop(&mut self) {
+        if let Some(d) = &self.dest_root {
+            let _ = std::fs::remove_dir_all(d);
+        }
+    }
 }
 
 pub fn execute(plan: &Plan, entropy: u64) -> RunReport {
@@ -57,10 +74,12 @@ pub fn execute(plan: &Plan, entropy: u64) -> RunReport {
             sel_pos: 0,
             replies: 0,
             fetch_order: vec![],
+            file_mode: false,
+            dest_root: None,
         };
         w.run().await;
         hooks::gates_uninstall();
-        w.rep
+        std::mem::take(&mut w.rep)
     })
 }
 
@@ -150,6 +169,7 @@ impl<'a> World<'a> {
         result: Arc<Mutex<Option<T>>>,
         answer: &dyn Fn(&World, &[u8]) -> Answer,
     ) -> bool {
+        let mut waited = 0u32;
         for _ in 0..200_000 {
             self.drain().await;
             if result.lock().unwrap().is_some() {
@@ -158,6 +178,13 @@ impl<'a> World<'a> {
             let gates = hooks::gates_pending();
             let total = gates.len() + self.open.len();
             if total == 0 {
+                if self.file_mode && waited < 50_000 {
+                    // the only thing that can be under way is one file system call on the blocking pool; the client
+                    // task awaits it and nothing else runs meanwhile, so waiting for it decides nothing
+                    waited += 1;
+                    std::thread::sleep(std::time::Duration::from_micros(100));
+                    continue;
+                }
                 return false;
             }
             let sel = self.next_sel();
@@ -324,7 +351,8 @@ impl<'a> World<'a> {
             self.rep.fault("download_batch_size_zero");
         }
         match &plan.task {
-            Task::RoundTrip { len, repetitive, nested } => {
+            Task::RoundTrip { len, repetitive, nested, via, pre } => {
+                let (via, pre) = (*via, *pre);
                 let mut data = gen_data(plan.seed, *len, *repetitive);
                 if *nested && *len >= 3 {
                     // the content to store is the serialised data map of another file, whose chunks the holders have
@@ -351,35 +379,175 @@ impl<'a> World<'a> {
                     self.hold(c);
                 }
                 let n_chunks = chunks.len();
-                let result = Arc::new(Mutex::new(None));
+                let via_name = match via {
+                    0 => "data_get_public",
+                    1 => "data_get",
+                    2 => "file_download_public",
+                    3 => "file_download",
+                    4 => "dir_download_public",
+                    _ => "dir_download",
+                };
+                self.rep.probe(&format!("read_back_via_{via_name}"));
+                // files a download has to produce: (absolute destination, expected bytes)
+                let mut expect_files: Vec<(std::path::PathBuf, Vec<u8>)> = vec![];
+                let result: Arc<Mutex<Option<Result<Vec<u8>, String>>>> = Arc::new(Mutex::new(None));
                 let (client, addr, res) = (self.client.clone(), *dm.name(), result.clone());
-                tokio::spawn(async move {
-                    let r = client.data_get_public(addr).await;
-                    *res.lock().unwrap() = Some(r.map(|b| b.to_vec()).map_err(|e| format!("{e:?}")));
-                });
+                let private_map = |c: &Chunk| DataMapChunk::from_hex(&hex::encode(c.value())).expect("hex");
+                if via >= 2 {
+                    let n = RUN_COUNTER.fetch_add(1, std::sync::atomic::Ordering::SeqCst);
+                    let root = std::path::PathBuf::from(format!("/dev/shm/antsim/{}/client-{n}", std::process::id()));
+                    let _ = std::fs::remove_dir_all(&root);
+                    self.dest_root = Some(root.clone());
+                    self.file_mode = true;
+                    let dest_dir = root.join("Down loads").join("sub");
+                    let mut entries: Vec<(std::path::PathBuf, Vec<u8>, Chunk)> = vec![];
+                    if via >= 4 {
+                        // a directory: this file and two small ones, one of them nested deeper
+                        entries.push((std::path::PathBuf::from("main.bin"), data.clone(), dm.clone()));
+                        for (i, (rel, l)) in [("docs/a.txt", 700usize), ("docs/deep/b.dat", 3usize)].iter().enumerate() {
+                            let d = gen_data(plan.seed ^ (0xa1 + i as u64), *l, false);
+                            let Some((dm_i, chunks_i)) = self.encrypt_and_check(&d) else { return };
+                            self.hold(&dm_i);
+                            for c in &chunks_i {
+                                self.hold(c);
+                            }
+                            entries.push((std::path::PathBuf::from(rel), d, dm_i));
+                        }
+                    } else {
+                        entries.push((std::path::PathBuf::from("file.bin"), data.clone(), dm.clone()));
+                    }
+                    for (i, (rel, d, _)) in entries.iter().enumerate() {
+                        let dest = dest_dir.join(rel);
+                        // what is at the destination before the download (second file of a directory: always absent)
+                        let before: Option<Vec<u8>> = match if i == 1 { 0 } else { pre } {
+                            0 => None,
+                            1 => Some(d.iter().map(|b| b ^ 0xff).chain([0xee; 17]).collect()),
+                            2 => Some(d[..d.len() / 2].iter().map(|b| b ^ 0xff).collect()),
+                            _ => Some(d.iter().map(|b| b ^ 0xff).collect()),
+                        };
+                        if let Some(b) = before {
+                            self.rep.fault(match pre {
+                                1 => "destination_holds_a_longer_file",
+                                2 => "destination_holds_a_shorter_file",
+                                _ => "destination_holds_a_file_of_the_same_length",
+                            });
+                            if let Some(parent) = dest.parent() {
+                                let _ = std::fs::create_dir_all(parent);
+                            }
+                            if std::fs::write(&dest, b).is_err() {
+                                self.rep.harness_error = Some("cannot prepare the download destination".into());
+                                return;
+                            }
+                        }
+                        expect_files.push((dest, d.clone()));
+                    }
+                    match via {
+                        2 => {
+                            let dest = dest_dir.join("file.bin");
+                            tokio::spawn(async move {
+                                let r = client.file_download_public(addr, dest).await;
+                                *res.lock().unwrap() = Some(r.map(|_| vec![]).map_err(|e| format!("{e:?}")));
+                            });
+                        }
+                        3 => {
+                            let (dest, access) = (dest_dir.join("file.bin"), private_map(&dm));
+                            tokio::spawn(async move {
+                                let r = client.file_download(access, dest).await;
+                                *res.lock().unwrap() = Some(r.map(|_| vec![]).map_err(|e| format!("{e:?}")));
+                            });
+                        }
+                        4 => {
+                            let mut archive = PublicArchive::new();
+                            for (rel, d, dm_i) in &entries {
+                                archive.add_file(rel.clone(), *dm_i.name(), Metadata { uploaded: 1_700_000_000, created: 1_600_000_000, modified: 1_650_000_000, size: d.len() as u64 });
+                            }
+                            let bytes = archive.to_bytes().expect("archive bytes");
+                            let Some((dm_a, chunks_a)) = self.encrypt_and_check(&bytes) else { return };
+                            self.hold(&dm_a);
+                            for c in &chunks_a {
+                                self.hold(c);
+                            }
+                            let (dest, a_addr) = (dest_dir.clone(), *dm_a.name());
+                            tokio::spawn(async move {
+                                let r = client.dir_download_public(a_addr, dest).await;
+                                *res.lock().unwrap() = Some(r.map(|_| vec![]).map_err(|e| format!("{e:?}")));
+                            });
+                        }
+                        _ => {
+                            let mut archive = PrivateArchive::new();
+                            for (rel, d, dm_i) in &entries {
+                                archive.add_file(rel.clone(), private_map(dm_i), Metadata { uploaded: 1_700_000_000, created: 1_600_000_000, modified: 1_650_000_000, size: d.len() as u64 });
+                            }
+                            let bytes = archive.to_bytes().expect("archive bytes");
+                            let Some((dm_a, chunks_a)) = self.encrypt_and_check(&bytes) else { return };
+                            for c in &chunks_a {
+                                self.hold(c);
+                            }
+                            let (dest, access) = (dest_dir.clone(), private_map(&dm_a));
+                            tokio::spawn(async move {
+                                let r = client.dir_download(access, dest).await;
+                                *res.lock().unwrap() = Some(r.map(|_| vec![]).map_err(|e| format!("{e:?}")));
+                            });
+                        }
+                    }
+                } else if via == 1 {
+                    let access = private_map(&dm);
+                    tokio::spawn(async move {
+                        let r = client.data_get(access).await;
+                        *res.lock().unwrap() = Some(r.map(|b| b.to_vec()).map_err(|e| format!("{e:?}")));
+                    });
+                } else {
+                    tokio::spawn(async move {
+                        let r = client.data_get_public(addr).await;
+                        *res.lock().unwrap() = Some(r.map(|b| b.to_vec()).map_err(|e| format!("{e:?}")));
+                    });
+                }
                 let done = self.drive(result.clone(), &|w: &World, key: &[u8]| match w.held.get(key) {
                     Some(v) => Answer::Found(v.clone()),
                     None => Answer::NotFound,
                 }).await;
+                self.file_mode = false;
                 self.rep.ops += self.fetch_order.len() as u64;
-                if self.fetch_order.len() > n_chunks + 1 {
+                if via < 4 && self.fetch_order.len() > n_chunks + 1 {
                     self.rep.probe("fetched_more_than_once_or_extra_level");
                 }
                 let got = result.lock().unwrap().clone();
-                self.rep.log(format!("round trip of {len} bytes: {} chunks, {} fetches, done={done}", n_chunks, self.fetch_order.len()));
+                self.rep.log(format!("round trip of {len} bytes via {via_name} (pre {pre}): {} chunks, {} fetches, done={done}", n_chunks, self.fetch_order.len()));
+                let sig = [("small_chunk_build", SMALL_CHUNK_BUILD.to_string()), ("via", via_name.to_string())];
                 match got {
-                    Some(Ok(bytes)) => {
+                    Some(Ok(bytes)) if via < 2 => {
                         if bytes != data {
-                            self.rep.violate("C14", "round_trip_differs", &[("small_chunk_build", SMALL_CHUNK_BUILD.to_string())], format!("data_get_public returned {} bytes that differ from the {} original bytes", bytes.len(), data.len()));
+                            self.rep.violate("C14", "round_trip_differs", &[("small_chunk_build", SMALL_CHUNK_BUILD.to_string())], format!("{via_name} returned {} bytes that differ from the {} original bytes", bytes.len(), data.len()));
                         } else {
                             self.rep.probe("round_trip_ok");
                         }
                     }
+                    Some(Ok(_)) => {
+                        let mut all_ok = true;
+                        for (dest, want) in &expect_files {
+                            match std::fs::read(dest) {
+                                Ok(have) if &have == want => {}
+                                Ok(have) => {
+                                    all_ok = false;
+                                    let shape = if have.len() > want.len() && have[..want.len()] == want[..] { "original_bytes_followed_by_leftovers" } else if have.len() == want.len() { "same_length_other_bytes" } else { "other" };
+                                    self.rep.violate("C14", "downloaded_file_differs", &[("via", via_name.to_string()), ("pre", pre.to_string()), ("shape", shape.into())], format!("{via_name} reported success, the destination holds {} bytes that are not the {} original bytes", have.len(), want.len()));
+                                }
+                                Err(e) => {
+                                    all_ok = false;
+                                    self.rep.violate("C14", "downloaded_file_missing", &[("via", via_name.to_string())], format!("{via_name} reported success but {:?} cannot be read: {e}", dest.file_name()));
+                                }
+                            }
+                        }
+                        if all_ok {
+                            self.rep.probe("round_trip_ok");
+                            self.rep.probe("download_to_file_ok");
+                        }
+                    }
                     Some(Err(e)) => {
-                        self.rep.violate("C14", "round_trip_failed", &[("small_chunk_build", SMALL_CHUNK_BUILD.to_string())], format!("data_get_public failed although every chunk was served: {e}"));
+                        self.rep.violate("C14", "round_trip_failed", &sig[..if via == 0 { 1 } else { 2 }], format!("{via_name} failed although every chunk was served: {e}"));
                     }
                     None => {
-                        self.rep.violate("C14", "round_trip_stuck", &[], "data_get_public never completed although nothing is pending");
+                        self.rep.violate("C14", "round_trip_stuck", &[], format!("{via_name} never completed although nothing is pending"));
                     }
                 }
                 // how many data-map levels did this input need (computed by the harness from the chunks)
